@@ -334,6 +334,11 @@ class PurificationRBM(nn.Module):
             self.sample_a_given_v(v, out=a)
             self.sample_v_given_ha(h, a, out=v)
 
+        if overwrite and v is not initial_state:
+            # `.to` had to make a copy (other dtype / device): overwriting was
+            # asked for, so the caller's tensor receives the new state
+            initial_state.copy_(v)
+
         return v
 
     @auto_unsqueeze_args()
